@@ -157,6 +157,17 @@ RULE = ("PROOF PART: cases = corpus + every string of length <= 3 over {e-acute,
         "(1 .. 4 KiB, the bound of the quantifier); the long chains run first and every case is under the per-case deadline CASE_TIMEOUT (a "
         "blow-up is reported as `hang:V:evaluate_expression-superlinear` with the input; microseconds per case on the unchanged tree) "
         "+ a string literal still open at the END of the text ending in 0..3 backslashes (either quote, 4 bodies, 4 prefixes) on the 7 entries with a literal scanner "
+        "+ the DATE family (chrono is not modelled: oracle = Ok or Err, no panic): `date-effective` / `date-expires` values at the edges of what "
+        "parse_date_string accepts - 22 years (chrono's first / last representable year and one beyond, with and without the explicit sign, 0000, 0001, "
+        "-0001, 9999, 10000, leap / non-leap) x 12 month-day pairs (12-31, 01-01, Feb 28 / 29 / 30, month 00 / 13, day 00 / 32, Jun 31, one-digit) in every "
+        "format the function tries (%Y-%m-%d, %d-%m-%Y, %d-%b-%Y without a time of day; %Y-%m-%dT%H:%M:%S and RFC 3339 with times 00:00:00, 23:59:59, 24:00:00, "
+        "23:59:60, minute 60, fractions of 0..12 digits, offsets Z / z / +-00:00 / +-23:59 / +24:00 / +14:00 / -12:00 / none; every pair for the edge dates), "
+        "as date-effective alone, date-expires alone and both, through parse_rule (AT, PU), parse_rules (R), parse_with_modules (M) "
+        "+ the KEYWORD family on GRLQueryParser::parse / parse_queries: 0..4 occurrences of each of the 11 keywords the query parser searches for (goal: strategy: "
+        "max-depth: max-solutions: enable-memoization: enable-optimization: on-success: on-failure: on-missing: when: query) glued to an identifier character / "
+        "`-` / `.` / a multi-byte letter, digit, symbol or blank in front (and optionally behind), placed in the query name, on lines before / after the "
+        "stand-alone occurrence, spread, or on one line, with and without a stand-alone occurrence; under the per-case deadline (a scan that stops "
+        "advancing is reported as `hang:G:query-parser-keyword-scan-no-progress` with the input) "
         "+ N generated "
         "strings, each for one of 27 modelled entries or 4 oracle-only entries R / M / W / FN (one in five: a valid input with random (i)/(ii)/(iii) "
         "/(iv) mutations, sometimes spliced; every token alphabet yields a Unicode white space / look-alike one time in ten and a "
@@ -279,6 +290,10 @@ def classify(case, impl, model, oracle, kind):
                 # evaluate_expression makes at most 2n + 1 calls on n chars (C05.evalCalls_linear) and takes microseconds on every
                 # generated text: no answer within CASE_TIMEOUT is a super-linear blow-up (CHAIN family: long operator chains)
                 return "hang:V:evaluate_expression-superlinear"
+            if e in ("G", "GQ"):
+                # the query parser's keyword scans are single passes over the text (KEYWORD family: 0..4 glued occurrences of every
+                # keyword): no answer within CASE_TIMEOUT is a scan that stopped advancing
+                return "hang:%s:query-parser-keyword-scan-no-progress" % e
         return "oracle:%s:%s" % (e, oracle.replace("fail ", ""))
     return "diff:%s" % e
 
